@@ -139,10 +139,16 @@ def performEviction (cfg : Config) (s : State) (vs : List Key) : State :=
 def evicts (cfg : Config) (s : State) : Bool :=
   needsEviction cfg s && !decide (s.count ≤ (target cfg : Int)) && cfg.policy != .ttl
 
-/-- `put_with_ttl` -/
-def putCore (cfg : Config) (s : State) (k : Key) (v : Val) (short : Bool) (vs : List Key) : State :=
-  let s1 := if needsEviction cfg s then performEviction cfg s vs else s
-  let e : Entry := { val := v, size := v.length, created := s1.clock, last := s1.clock, hits := 1, short := short }
+/-- `if self.needs_eviction() { self.perform_eviction(); }` at the head of `put_with_ttl` -/
+def preEvict (cfg : Config) (s : State) (vs : List Key) : State :=
+  if needsEviction cfg s then performEviction cfg s vs else s
+
+/-- `MemoryCacheEntryInner::new` -/
+def newEntry (s : State) (v : Val) (short : Bool) : Entry :=
+  { val := v, size := v.length, created := s.clock, last := s.clock, hits := 1, short := short }
+
+/-- `storage.insert` and the counter arithmetic of `put_with_ttl` -/
+def insertCounted (s1 : State) (k : Key) (e : Entry) : State :=
   match lookup k s1.store with
   | some old =>
     { s1 with store := (k, e) :: erase k s1.store,
@@ -150,6 +156,11 @@ def putCore (cfg : Config) (s : State) (k : Key) (v : Val) (short : Bool) (vs : 
                        else s1.bytes - ((old.size - e.size : Nat) : Int) }
   | none =>
     { s1 with store := (k, e) :: erase k s1.store, count := s1.count + 1, bytes := s1.bytes + (e.size : Int) }
+
+/-- `put_with_ttl` -/
+def putCore (cfg : Config) (s : State) (k : Key) (v : Val) (short : Bool) (vs : List Key) : State :=
+  let s1 := preEvict cfg s vs
+  insertCounted s1 k (newEntry s1 v short)
 
 /-- the expired-entry path shared by `get` and `contains`: read the size, drop the guard, remove
 by key, subtract what was read. -/
